@@ -81,7 +81,7 @@ class ProgGen:
         self.in_partial = 0
         kinds = ["text", "output", "assign", "capture", "if", "unless", "case", "for",
                  "cycle", "incdec", "echo", "liquid", "raw", "comment", "with", "macro",
-                 "call", "include", "render", "translate", "ternary", "tstring"]
+                 "call", "include", "render", "translate", "ternary", "tstring", "limitcarry"]
         if shopify:
             kinds.append("tablerow")
         # swarm: random weights, a few kinds switched off per program
@@ -444,6 +444,27 @@ class ProgGen:
             body += self.tag("if " + self.cond()) + self.tag(r.choice(["break", "continue"])) + self.tag("endif") + "t"
         return self.tag("tablerow " + e) + body + self.tag("endtablerow")
 
+    def n_limitcarry(self, depth):
+        """Loops nested THROUGH a macro call / partial / capture: loop-iteration and
+        namespace limits must be carried across those boundaries (in both twins)."""
+        r = self.rng
+        rng_a = r.choice(["(1..3)", "(1..m)", "nums", "products"])
+        rng_b = r.choice(["(1..3)", "(1..4)", "user.tags", "(1..m)"])
+        inner = self.tag(f"for q in {rng_b}") + self.out("q") + self.tag("endfor")
+        k = r.random()
+        if k < 0.4:
+            name = r.choice(["lm", "'loopy'"])
+            self.macros.append(name)
+            return (self.tag(f"macro {name} a") + inner + self.out("a") + self.tag("endmacro")
+                    + self.tag(f"for i in {rng_a}") + self.tag(f"call {name} i") + self.tag("endfor"))
+        if k < 0.7 and self.allow_partials:
+            pn = r.choice(["snippets/loop.html", "loops/inner"])
+            self.partials.setdefault(pn, inner + "{{ i }}")
+            how = r.choice([f"render '{pn}', i: i", f"include '{pn}'", f"render '{pn}' for {rng_b} as i"])
+            return self.tag(f"for i in {rng_a}") + self.tag(how) + self.tag("endfor")
+        return (self.tag(f"for i in {rng_a}") + self.tag("capture lc") + inner + self.tag("endcapture")
+                + self.out("lc") + self.tag("endfor"))
+
     def n_cycle(self, depth):
         r = self.rng
         vals = ", ".join(self.primitive() for _ in range(r.randint(1, 3)))
@@ -497,6 +518,8 @@ class ProgGen:
         params = r.choice(["", "you", "you, greeting: 'Hi'", "p, on_sale: false", "a, b: n, c: user.name"])
         body = self.block(depth + 1, 2) + self.out(r.choice(["you", "greeting", "p.title", "args", "kwargs", "a", "b", "c",
                                                             "args | join: '-'", "kwargs.z"]))
+        if self.allow_partials and r.random() < 0.25:
+            body += self.n_render(self.max_depth) if r.random() < 0.6 else self.n_include(self.max_depth)
         return self.tag(f"macro {name} {params}".rstrip()) + body + self.tag("endmacro")
 
     def n_call(self, depth):
@@ -511,6 +534,9 @@ class ProgGen:
         return self.tag(f"call {name} " + ", ".join(args))
 
     def partial_name(self) -> str:
+        lay = [n for n in LAYOUT_NAMES if n in self.partials]
+        if lay and self.rng.random() < 0.12:
+            return self.rng.choice(lay)   # a layout rendered/included directly: its blocks render their defaults
         return self.rng.choice(PARTIAL_NAMES)
 
     def ensure_partial(self, name: str, depth: int) -> None:
